@@ -33,6 +33,10 @@ def _s(x):
 # ---------------------------------------------------------------------------------------------
 # real side
 
+class BlocksForever(BaseException):
+    """a simulated system call that would never return (not an Exception: nothing in lomond may swallow it)"""
+
+
 def run_link(case):
     """case: dict(url, http, https: proxy URL or None, gai: None | [ok|sfail|cfail ...],
                   reads: [['d', hex] | ['x'] | ['t']], wrap: bool, sc: scenario json (conn = ok | selfail;
@@ -59,6 +63,10 @@ def run_link(case):
             W.FakeSocket.__init__(self, world)
             self.idx = idx
             self.connected = False
+            self.timeout = None      # as set by settimeout(); a new socket blocks
+
+        def settimeout(self, t):
+            self.timeout = t
 
         def connect(self, sa):
             world.log('S:connect%d' % self.idx)
@@ -88,6 +96,12 @@ def run_link(case):
             world.log('P:W:0:' + data.hex())
 
         def recv(self, n):
+            if not reads or reads[0][0] == 't':
+                # the proxy stays silent: recv() raises socket.timeout when the socket's timeout runs out - and never returns
+                # when the socket has been put into blocking mode (timeout None) before the negotiation is over
+                if self.timeout is None:
+                    world.log('P:R:BLOCKS-FOREVER')
+                    raise BlocksForever()
             if not reads:
                 world.log('P:R:timeout')
                 raise real_socket.timeout('timed out')
@@ -173,7 +187,10 @@ def run_link(case):
         if case.get('https'):
             proxies['https'] = case['https']
         ws = WebSocket(case['url'], proxies=proxies, protocols=sc.protocols or None, compress=sc.compress)
-        return W._run_one(ws, sc, world, None, LinkSession)
+        try:
+            return W._run_one(ws, sc, world, None, LinkSession)
+        except BlocksForever:
+            return ' '.join(world.trace + ['HUNG:recv-on-a-blocking-socket-and-the-proxy-is-silent'])
     finally:
         S.time, _events.time, _frame.make_masking_key, _websocket.os.urandom, S.socket = saved
 
@@ -469,6 +486,8 @@ def explore_stream(res, rng, mode, n, model_ok, pid, judge_close=False):
         if any(t.startswith('S:close') for t in tk):
             res.count('link:address-retried')
         v = oracle(case, r) if mode != 'direct-wss' else None
+        if any(t.startswith('HUNG:') for t in tk):
+            v = ('blocks-forever', 'the connection attempt never ends (neither ConnectFail nor Connected): recv() was called on a socket without a timeout while the proxy stays silent')
         if mode == 'direct-wss' and any(t.startswith('ESCAPED:') for t in tk):
             v = ('escaped', 'an exception left the event iterator: %s' % [t for t in tk if t.startswith('ESCAPED:')])
         if not v and judge_close:
